@@ -250,10 +250,16 @@ theorem mesh_selection_partition (μ : Inside) (m : Mesh) :
   rw [inVolumeMesh_subset, inVolumeMesh_subset]
   exact ⟨selected_partition μ m.verts, selected_disjoint μ m.verts, fun mode i h => inVolumeMesh_kept_sub μ mode m i h⟩
 
+/-- **each_carries_own_connectors (meshes).**  A connector belongs to its nearest vertex; every pruned mesh carries exactly
+the connectors whose vertex *survives* in it, and the rewritten `vertex_id` column addresses that same vertex in the pruned
+mesh — for every mesh, with or without straddling faces (this is the behaviour since the `fix:` commit that re-indexes
+against the surviving vertices; before, `vertex_id` was computed against `subset` and went stale). -/
 theorem mesh_carries_own_connectors (μ : Inside) (mode : Mode) (m : Mesh) (hne : m.verts ≠ []) :
     (inVolumeMesh μ mode m).conns.map (·.1)
-      = (m.conns.filter fun c => (inVolumeMesh μ mode m).subset.contains (attach m.verts c)).map (·.cid) :=
-  inVolumeMesh_conns μ mode m hne
+      = (m.conns.filter fun c => (inVolumeMesh μ mode m).kept.contains (attach m.verts c)).map (·.cid)
+    ∧ ∀ cj ∈ (inVolumeMesh μ mode m).conns,
+        ∃ c ∈ m.conns, c.cid = cj.1 ∧ (inVolumeMesh μ mode m).kept[cj.2]? = some (attach m.verts c) :=
+  ⟨inVolumeMesh_conns μ mode m hne, fun cj h => inVolumeMesh_reindex μ mode m hne cj h⟩
 
 /-- **in_out_partition (meshes) — partial.**  Full statement wanted by the property text:
 `∀ μ m, (kept IN ++ kept OUT).Perm (range n)`.  That is *false* for the code (see `mesh_straddling_face_loses_vertices`):
@@ -275,6 +281,43 @@ theorem mesh_in_out_partition_partial (μ : Inside) (m : Mesh) (hv : FacesValid 
   · intro mode
     rw [inVolumeMesh_kept_of_noStraddle μ mode m hv hr hs, inVolumeMesh_subset]
 
+/-- … and on such meshes the two modes partition the connectors as well (same partial scope: with straddling faces the
+connectors of the lost vertices are in neither part, see the counter-example below). -/
+theorem mesh_connectors_partition_partial (μ : Inside) (m : Mesh) (hv : FacesValid m) (hr : Referenced m)
+    (hs : NoStraddle μ m) (hne : m.verts ≠ []) :
+    ((inVolumeMesh μ .IN m).conns.map (·.1) ++ (inVolumeMesh μ .OUT m).conns.map (·.1)).Perm (m.conns.map (·.cid)) := by
+  rw [(mesh_carries_own_connectors μ .IN m hne).1, (mesh_carries_own_connectors μ .OUT m hne).1,
+    inVolumeMesh_kept_of_noStraddle μ .IN m hv hr hs, inVolumeMesh_kept_of_noStraddle μ .OUT m hv hr hs]
+  have : (m.conns.filter fun c =>
+        ((List.range m.verts.length).filter (inAt m.verts (keepPred μ .OUT))).contains (attach m.verts c))
+      = m.conns.filter fun c => !(fun c : PConn =>
+        ((List.range m.verts.length).filter (inAt m.verts (keepPred μ .IN))).contains (attach m.verts c)) c := by
+    apply List.filter_congr
+    intro c _
+    have hlt := attach_lt m.verts c hne
+    have hr' : attach m.verts c ∈ List.range m.verts.length := List.mem_range.mpr hlt
+    have e : inAt m.verts (keepPred μ .OUT) (attach m.verts c) = !inAt m.verts (keepPred μ .IN) (attach m.verts c) :=
+      inAt_not m.verts (keepPred μ .IN) _ hlt
+    cases hin : inAt m.verts (keepPred μ .IN) (attach m.verts c)
+    · have h1 : ((List.range m.verts.length).filter (inAt m.verts (keepPred μ .IN))).contains (attach m.verts c) = false := by
+        apply Bool.eq_false_iff.mpr; intro hc
+        rw [List.contains_iff_mem, List.mem_filter, hin] at hc
+        exact absurd hc.2 (by simp)
+      have h2 : ((List.range m.verts.length).filter (inAt m.verts (keepPred μ .OUT))).contains (attach m.verts c) = true := by
+        rw [List.contains_iff_mem, List.mem_filter]
+        exact ⟨hr', by rw [e, hin]; rfl⟩
+      simp only [h1, h2, Bool.not_false]
+    · have h1 : ((List.range m.verts.length).filter (inAt m.verts (keepPred μ .IN))).contains (attach m.verts c) = true := by
+        rw [List.contains_iff_mem, List.mem_filter]
+        exact ⟨hr', hin⟩
+      have h2 : ((List.range m.verts.length).filter (inAt m.verts (keepPred μ .OUT))).contains (attach m.verts c) = false := by
+        apply Bool.eq_false_iff.mpr; intro hc
+        rw [List.contains_iff_mem, List.mem_filter, e, hin] at hc
+        exact absurd hc.2 (by simp)
+      simp only [h1, h2, Bool.not_true]
+  rw [this, ← List.map_append]
+  exact (List.filter_append_perm _ _).map _
+
 /-- two triangles far apart, one inside, one outside -/
 def exMesh : Mesh :=
   { verts := [⟨1, 1, 1⟩, ⟨3, 1, 1⟩, ⟨1, 3, 1⟩, ⟨21, 1, 1⟩, ⟨23, 1, 1⟩, ⟨21, 3, 1⟩],
@@ -293,16 +336,16 @@ example : (inVolumeMesh (mem exCube) .IN exMesh).kept = [0, 1, 2] ∧ (inVolumeM
   decide
 
 /-- **Counter-example to the full statement (open finding).**  One triangle with one vertex inside the cube and two
-outside: `IN` keeps no vertex, `OUT` keeps no vertex either (its only face straddles) — vertex 0 … 2 are in neither part,
-while the connector on vertex 0 is still carried by the (empty) `IN` part with a `vertex_id` that addresses nothing. -/
+outside: `IN` keeps no vertex, `OUT` keeps no vertex either (its only face straddles) — vertices 0 … 2 are in neither part,
+and so is the connector on vertex 0 (it is dropped together with its vertex; no stale `vertex_id` is written any more). -/
 def straddleMesh : Mesh :=
   { verts := [⟨1, 1, 1⟩, ⟨21, 1, 1⟩, ⟨21, 3, 1⟩], faces := [⟨0, 1, 2⟩], conns := [⟨100, ⟨1, 1, 3⟩⟩] }
 theorem mesh_straddling_face_loses_vertices :
     ¬ NoStraddle (mem exCube) straddleMesh
     ∧ (inVolumeMesh (mem exCube) .IN straddleMesh).subset = [0] ∧ (inVolumeMesh (mem exCube) .OUT straddleMesh).subset = [1, 2]
     ∧ (inVolumeMesh (mem exCube) .IN straddleMesh).kept = [] ∧ (inVolumeMesh (mem exCube) .OUT straddleMesh).kept = []
-    ∧ (inVolumeMesh (mem exCube) .IN straddleMesh).conns = [(100, 0)] := by
-  refine ⟨?_, by decide, by decide, by decide, by decide, by decide⟩
+    ∧ (inVolumeMesh (mem exCube) .IN straddleMesh).conns = [] ∧ (inVolumeMesh (mem exCube) .OUT straddleMesh).conns = [] := by
+  refine ⟨?_, by decide, by decide, by decide, by decide, by decide, by decide⟩
   intro h
   have := h ⟨0, 1, 2⟩ (by decide)
   revert this; decide
